@@ -96,7 +96,7 @@ def wash_op(r, bad=False):
         hi = {"wg": 67, "cg": 67, "ws": 128, "cs": 128, "arm": 1, "wdelay": 1000, "cdelay": 1000, "airgap": 100, "aspeed": 1000, "rspeed": 100, "fast": 1, "low": 1}
         lo = {"wg": 1, "cg": 1, "ws": 1, "cs": 1, "aspeed": 1, "rspeed": 1}
         if k in ("wv", "cv"):
-            g[k] = r.choice([10010, 20000, -10])
+            g[k] = r.choice([10010, 20000, -10, 10004, 10001, -4, -1])  # also just beyond the range (less than the rounding step)
         elif k == "tips":
             g["tips"][0] = r.choice([["int", 0], ["int", 9]])
         else:
@@ -152,6 +152,12 @@ def targeted_programs():
         ("oversized-first", W([0, 1, 2]), T([1, 2, 3]), {"k": "l", "x": [951, 2, 3]}),
         ("oversized-middle", W([0, 1, 2]), T([1, 2, 3]), {"k": "l", "x": [1, 1000, 3]}),
         ("oversized-last", W([0, 1, 2]), T([1, 2, 3]), {"k": "l", "x": [1, 2, 951]}),
+        # numbers and Tip members mixed: the order of the TIPS counts, not the order of the raw values (Tip.T4 has value 8)
+        ("mixed-ascending", W([0, 1]), [["tip", 4], ["int", 5]], {"k": "l", "x": [10, 20]}),
+        ("mixed-descending", W([0, 1]), [["int", 5], ["tip", 4]], {"k": "l", "x": [10, 20]}),
+        ("mixed-ascending-3", W([1, 3, 6]), [["int", 2], ["tip", 3], ["int", 7]], {"k": "l", "x": [1, 2, 3]}),
+        ("mixed-permuted-3", W([6, 1, 3]), [["int", 7], ["int", 2], ["tip", 3]], {"k": "l", "x": [3, 1, 2]}),
+        ("mixed-wrong-3", W([1, 3, 6]), [["int", 3], ["tip", 2], ["int", 7]], {"k": "l", "x": [1, 2, 3]}),
     ]
     for name, wells, tips, vols in cases:
         for opn in ("evo_aspirate", "evo_dispense"):
